@@ -136,6 +136,32 @@ partial def parseAll (r : List String) : Option (List WItem) :=
     let (v, r1) ← parseValue r
     let is ← parseAll r1
     some (.value (← self.toNat?) v :: is)
+  | "nv" :: self :: key :: r => do
+    -- a named variable (`ScriptVariable::Archive`): `<self> <name-hex | ->`, then the value
+    let (v, r1) ← parseValue r
+    let is ← parseAll r1
+    let k ← if key = "-" then some none else (bytes? key).map some
+    some (.named (← self.toNat?) k v :: is)
+  | "vl" :: tl :: th :: tli :: n :: r => do
+    -- `ScriptVariableList::Archive` = `con::set<const_str, ScriptVariable>::Archive`: the header numbers, then
+    -- `ScriptVariable::Archive` of every entry in the order of the writer's walk (`perm` over the insertion order)
+    let n ← n.toNat?
+    if r.length < n then none else
+    let perm ← (r.take n).mapM String.toNat?
+    let rec entries : Nat → List String → Option (List WItem × List String)
+      | 0, r => some ([], r)
+      | k + 1, self :: key :: r => do
+        let (v, r1) ← parseValue r
+        let (es, r2) ← entries k r1
+        let k ← if key = "-" then some none else (bytes? key).map some
+        some (.named (← self.toNat?) k v :: es, r2)
+      | _, _ => none
+    let (es, r1) ← entries n (r.drop n)
+    if perm.any (· ≥ n) then none else
+    let walk := perm.filterMap fun i => es[i]?
+    let is ← parseAll r1
+    some ([.item (.prim .u32 (← tl.toNat?)), .item (.prim .u32 (← th.toNat?)), .item (.prim .u32 n),
+           .item (.prim .u16 (← tli.toNat?))] ++ walk ++ is)
   | r => do
     let (i, r1) ← parseItem r
     let is ← parseAll r1
@@ -154,13 +180,16 @@ partial def showItems (l : List Item) : String := " ".intercalate (l.map showIte
 end
 
 /-- a hash array as read back: the entries sorted by the text of their key (the reader's own table order is not
-    the writer's) -/
-def showArr (h rc tl th tli : Nat) (rendered : List String) : String :=
-  let rec pairs : List String → List (String × String)
-    | k :: v :: r => (k, v) :: pairs r
-    | _ => []
-  let ps := ((pairs rendered).toArray.qsort fun a b => a.1 < b.1).toList
-  s!"arr {h} {rc} {tl} {th} {tli} {ps.length}" ++ (if ps.isEmpty then "" else " " ++ " ".intercalate (ps.map fun (k, v) => k ++ " " ++ v))
+    the writer's); an entry that a look-up under its own key does not find is shown as `lost:<key>` — the harness
+    gives the listener of label `L` an address with `address % 7 = L % 6 + 1` -/
+def showArr (h rc tl th tli : Nat) (keys : List Value) (rendered : List String) : String :=
+  let rec pairs : List Value → List String → List (Value × String × String)
+    | kv :: _ :: ks, k :: v :: r => (kv, k, v) :: pairs ks r
+    | _, _ => []
+  let ps := ((pairs keys rendered).toArray.qsort fun a b => a.2.1 < b.2.1).toList
+  let show1 := fun (e : Value × String × String) =>
+    (if foundAfterLoad Morfuse.Gen.Archive.arrayRefiled (fun _ => 0) (fun o => o % 6 + 1) tl e.1 then "" else "lost:") ++ e.2.1 ++ " " ++ e.2.2
+  s!"arr {h} {rc} {tl} {th} {tli} {ps.length}" ++ (if ps.isEmpty then "" else " " ++ " ".intercalate (ps.map show1))
 
 mutual
 partial def showValue : Value → String
@@ -175,13 +204,14 @@ partial def showValue : Value → String
   | .link c _ l => s!"{match c with | 6 => "l" | 7 => "ref" | 10 => "con" | _ => "scon"} {l}"
   | .holderRef c h => s!"{match c with | 8 => "aref" | 9 => "car" | _ => "pref"} {h}"
   | .pointer p vs => s!"ptr {p} {vs.length}" ++ (if vs.isEmpty then "" else " " ++ " ".intercalate (vs.map toString))
-  | .array h rc tl th tli es => showArr h rc tl th tli (es.map fun (_, v) => showValue v)
+  | .array h rc tl th tli es => showArr h rc tl th tli (es.map (·.2)) (es.map fun (_, v) => showValue v)
   | .constArray h rc es => s!"ca {h} {rc} {es.length}" ++ (if es.isEmpty then "" else " " ++ " ".intercalate (es.map fun (_, v) => showValue v))
 end
 
 def showW : WItem → String
   | .item i => showItem i
   | .value s v => s!"v {s} {showValue v}"
+  | .named s k v => s!"nv {s} {match k with | some b => toHex b | none => "-"} {showValue v}"
 
 def showWs (l : List WItem) : String := " ".intercalate (l.map showW)
 
@@ -198,7 +228,7 @@ partial def showValueD (d : Dict) : Value → List Nat → String × List Nat
     (s!"ca {h} {rc} {es.length}" ++ (if es.isEmpty then "" else " " ++ " ".intercalate r.1), r.2)
   | .array h rc tl th tli es, ids =>
     let r := showElemsD d es ids
-    (showArr h rc tl th tli r.1, r.2)
+    (showArr h rc tl th tli (es.map (·.2)) r.1, r.2)
   | v, ids => (showValue v, ids)
 partial def showElemsD (d : Dict) : List (Lbl × Value) → List Nat → List String × List Nat
   | [], ids => ([], ids)
@@ -214,6 +244,16 @@ partial def showWsD (d : Dict) : List WItem → List Nat → List String
   | .value s v :: ws, ids =>
     let a := showValueD d v ids
     s!"v {s} {a.1}" :: showWsD d ws a.2
+  | .named s none v :: ws, ids =>
+    let a := showValueD d v ids
+    s!"nv {s} - {a.1}" :: showWsD d ws a.2
+  | .named s (some _) v :: ws, ids =>
+    -- the name is the text its `const_str` denotes in the reading dictionary
+    let (name, ids) := match ids with
+      | i :: r => ((match d.text i with | some bs => toHex bs | none => "-"), r)
+      | [] => ("?", [])
+    let a := showValueD d v ids
+    s!"nv {s} {name} {a.1}" :: showWsD d ws a.2
 
 def showLoaded (L : Loaded) : String := " ".intercalate (showWsD L.dict L.items L.ids)
 
